@@ -112,6 +112,10 @@ class ContractionAlgebra:
             if tier == "thorough" and mod not in ("eri", "eri_middle"):
                 out.append(dict(module=mod, l=1, K=3, M=3))
                 out.append(dict(module=mod, l=0, K=4, M=1))
+                if mod in ("overlap", "kinetic", "moment", "momentum", "eval", "eval_deriv"):
+                    out.append(dict(module=mod, l=3, K=2, M=2))
+                if mod in ("overlap", "eval"):
+                    out.append(dict(module=mod, l=0, K=4, M=4))
         return out
 
     def run(self, shape, M):
